@@ -329,4 +329,25 @@ PROPS = {
                        "RwLock), atomicity of commit across all nodes, walking a zone: Kani has no threads, Verus has no model of "
                        "parking_lot/arc-swap/Arc; this claim is about one Versioned<T> cell only.",
     },
+    "C07": {
+        "level": "other",
+        "units": ["zfsource"],
+        "kani": [],
+        "explanation": "the totality half of the statement, for the tokenizer every zone-file read goes through "
+                       "(zonefile/inplace.rs::SourceBuf, real text): next_item (white space, parentheses, comments, line ends, quotes) "
+                       "terminates on every buffer, never reads outside it, its parenthesis counter never underflows and its "
+                       "assert!(token completely read) is a precondition proved at every extracted call site; _next_symbol / "
+                       "next_symbol / next_char_symbol / next_ascii_symbol / peek_symbol / skip_at_token / skip_unknown_marker keep "
+                       "the read position inside the buffer, their unreachable!() arms are unreachable, and a symbol is consumed "
+                       "only if one is handed out; split_to/trim_to keep the invariant (their asserts are preconditions).",
+        "not_covered": "Layout independence (a relation between two runs on two files; no contract on a single call expresses it), "
+                       "EntryScanner (scan_entry, scan_name, convert_token, in-place rewriting with from_utf8_unchecked), record-data "
+                       "scan() functions, $ORIGIN/$TTL/class inheritance, error positions. Symbol::from_slice_index is assumed to "
+                       "return an end position inside the buffer (its own totality is not proved).",
+        "assumptions": [
+            "bytes::BytesMut is modelled as an octet sequence of at most isize::MAX octets (get, split_to, advance)",
+            "Symbol::from_slice_index: a returned end position is > pos and <= len; None exactly at the end of the buffer",
+            "machine arithmetic: parens/line counters and offsets cannot overflow while the total input stays below isize::MAX octets (counters_ok)",
+        ],
+    },
 }
